@@ -20,6 +20,17 @@ SIDECAR_BRACES_INVALID; type faults may also carry the library's own type codes)
            referenced from another column -> no error issue; the same with a second real placeholder, or with no placeholder
            at all (expanded form with a value) -> PLACEHOLDER_INVALID; the '#' form inside a categorical entry ->
            PLACEHOLDER_INVALID.
+  value-templates  value columns whose template is the empty string, blank, or an individually valid annotation without '#',
+           alone, next to other columns, and referenced through {column} by a categorical or a value column (host before / after)
+           -> an error for the placeholder rule (PLACEHOLDER_INVALID; for an empty / blank template the library's blank-entry
+           codes are accepted as well), located at that column.
+  definition-counts  definitions columns whose entries hold DIFFERENT NUMBERS of definitions (every vector of 1-3 entries with 1, 2
+           or 3 definitions each, plain and '/#' definitions), used from other columns -> no error issue; the same column with one
+           more entry that holds NO definition (plain tags, a group, a use of a definition) first / in the middle / last ->
+           DEFINITION_INVALID in that column (a column holds definitions in all of its entries or in none).
+  empty-maps  categorical columns whose HED map is empty, alone, with Levels / Description, next to valid columns at every position,
+           twice, and referenced through {column}: nothing raised, and every error-severity issue is a type / blank-entry code
+           (or, for a referencing column, a reference code) located at the empty column (or the column referring to it).
 """
 import copy
 import io
@@ -51,6 +62,8 @@ L_F_NESTED = "C08.fault.ref_nested"
 L_F_LOC = "C08.fault.location"
 L_DEF_VALID = "C08.valid.definitions_no_error"
 L_DEF_FAULT = "C08.defs.faulty_definition_reported"
+L_DEF_MIXED = "C08.defs.mixed_column_reported"       # a column holds definitions in all of its entries or in none
+L_EMPTYMAP = "C08.emptymap.errors_only_type_codes_at_that_column"
 L_DEFX_VALID = "C08.valid.def_expand_placeholder_counts_once"   # (Def-expand/Name/#, (... # ...)) is ONE placeholder (= Def/Name/#)
 
 TYPE_CODES = {"SIDECAR_INVALID", "wrongHedDataType", "sidecarUnknownColumn", "blankValueString"}
@@ -327,15 +340,16 @@ def check_valid(doc):
     return [(L_TOTAL, True, None, None), (L_VALID, not errs, errs, "no error-severity issue")]
 
 
-def check_fault(clause, doc, involved):
+def check_fault(clause, doc, involved, codes=None):
     stage, payload = run_doc(json.dumps(doc))
     if stage != "ok":
         return [(total_label(doc), False, f"{stage}: {payload}", "a list of issues, nothing raised")]
     errs = error_issues(payload)
     got = [(i["code"], i.get("ec_sidecarColumnName"), i.get("ec_sidecarKeyName")) for i in errs]
-    hit = [i for i in errs if i["code"] in EXPECTED[clause]]
+    wanted = set(codes) if codes else EXPECTED[clause]
+    hit = [i for i in errs if i["code"] in wanted]
     res = [(L_TOTAL, True, None, None),
-           (clause, bool(hit), got, {"an error with code in": sorted(EXPECTED[clause])})]
+           (clause, bool(hit), got, {"an error with code in": sorted(wanted)})]
     if hit:
         where = [i.get("ec_sidecarColumnName") for i in hit]
         res.append((L_F_LOC, all(c is None or c in involved for c in where), where, {"column in": involved}))
@@ -492,6 +506,175 @@ def check_def_fault(doc):
     return res
 
 
+# ------------------------------------------------------------------------------------------------ value templates without '#'
+BLANK_TEMPLATES = ["", " ", "   "]
+POUNDLESS_TEMPLATES = ["Red", "(Red, Blue)", "Label/3", "(Duration/3 s, (Green))", "Green, (Blue, Square)"]
+BLANK_CODES = sorted({"PLACEHOLDER_INVALID"} | TYPE_CODES)
+
+
+def template_faults(quick):
+    """value column 'rt' whose template has no '#': x surroundings (alone, other valid columns before / after) x referencing hosts
+    (none, categorical '{rt}' at the end / inside parentheses, value column '{rt}' next to its own '#', nested in a group),
+    host before / after 'rt'"""
+    hosts = [None,
+             ("host", {"HED": {"a": "Green, {rt}"}}),
+             ("host", {"HED": {"a": "({rt}), Green", "b": "Blue"}}),
+             ("host", {"HED": "Label/#, {rt}"}),
+             ("host", {"Description": "nested", "HED": "(Age/# years, ({rt}, Square))"})]
+    surroundings = [[], ["cat1"], ["val1", "ign1"], ["cat2", "val2"]]
+    k = 0
+    for template in BLANK_TEMPLATES + POUNDLESS_TEMPLATES:
+        codes = BLANK_CODES if not template.strip() else None
+        for hi, host in enumerate(hosts):
+            for si, sur in enumerate(surroundings):
+                for pos in range(len(sur) + 1):
+                    for host_first in ((False, True) if host else (False,)):
+                        k += 1
+                        if quick and template in POUNDLESS_TEMPLATES and (k + hi + si) % 3:
+                            continue
+                        entry = {"HED": template} if k % 2 else {"Description": "reaction time", "HED": template}
+                        names = list(sur)
+                        names.insert(pos, "rt")
+                        doc = {}
+                        if host and host_first:
+                            doc[host[0]] = copy.deepcopy(host[1])
+                        for n in names:
+                            doc[n] = entry if n == "rt" else copy.deepcopy(COLUMNS[n])
+                        if host and not host_first:
+                            doc[host[0]] = copy.deepcopy(host[1])
+                        desc = "value column rt := %s%s" % (json.dumps(template), ", referenced by column host" if host else "")
+                        yield L_F_VPOUND, desc, doc, ["rt"] + (["host"] if host else []), codes
+
+
+# ------------------------------------------------------------------------------------------------ definitions: counts per entry
+DEF_POOL = [("Go", "(Definition/Go, (Red))", "Def/Go"), ("Stop", "(Definition/Stop, (Blue))", "(Def/Stop, Square)"),
+            ("Acc", "(Definition/Acc/#, (Acceleration/# m-per-s^2))", "Def/Acc/3"),
+            ("Wait", "(Definition/Wait, (Green, (Square)))", "(Circle, (Def/Wait))"),
+            ("Lab", "(Definition/Lab/#, (Label/#))", "Def/Lab/abc"), ("Turn", "(Definition/Turn, (Circle))", "Def/Turn, Cross"),
+            ("Far", "(Definition/Far/#, (Distance/# m, Blue))", "Def/Far/2"), ("Halt", "(Definition/Halt, ((Red), (Blue)))", "Def/Halt"),
+            ("Jump", "(Definition/Jump, (Triangle))", "Def/Jump")]
+NON_DEFINITION_ENTRIES = ["Red", "(Blue, Square)", "Def/%s", "(Green, (Def/%s))", "Label/abc, Cross"]
+
+
+def def_pool_preconditions():
+    """generator precondition: every definition of DEF_POOL is accepted on its own, every use and every entry without a
+    definition is a valid annotation given these definitions"""
+    from hed.models.definition_dict import DefinitionDict
+    from hed.models.hed_string import HedString
+    from hed.errors.error_types import ErrorSeverity
+    S = _env()["schema"]
+    dd = DefinitionDict([d[1] for d in DEF_POOL], S)
+    bad = [(i["code"], i.get("message", "")[:80]) for i in dd.issues if i["severity"] == ErrorSeverity.ERROR]
+    for text in [d[2] for d in DEF_POOL] + [(t % DEF_POOL[0][0] if "%s" in t else t) for t in NON_DEFINITION_ENTRIES]:
+        issues = HedString(text, S, def_dict=dd).validate(allow_placeholders=False)
+        bad += [(text, i["code"]) for i in issues if i["severity"] == ErrorSeverity.ERROR]
+    if bad:
+        raise AssertionError(f"workload precondition: definitions / uses of the definition-counts part not valid: {bad}")
+
+
+def count_vectors():
+    out = []
+    for n in (1, 2, 3):
+        for v in itertools.product((1, 2, 3), repeat=n):
+            if sum(v) <= len(DEF_POOL):
+                out.append(v)
+    return out
+
+
+def def_count_docs(quick):
+    """-> (valid [(doc, meta)], mixed [(doc, meta)])"""
+    valid, mixed = [], []
+    for vi, vec in enumerate(count_vectors()):
+        start = vi % len(DEF_POOL)
+        pool = DEF_POOL[start:] + DEF_POOL[:start]
+        entries, used = {}, []
+        it = iter(pool)
+        for ei, cnt in enumerate(vec):
+            chunk = [next(it) for _ in range(cnt)]
+            used += chunk
+            entries["d%d" % ei] = (", " if (vi + ei) % 2 else ",").join(c[1] for c in chunk)
+        uses = [u[2] for u in used]
+        cat = {"HED": {"k%d" % j: uses[j] for j in range(min(3, len(uses)))}}
+        val = {"HED": "Def/Lab/#, Blue"} if any(u[0] == "Lab" for u in used) else {"HED": "Label/#"}
+        defs = {"HED": entries} if vi % 3 else {"Description": "definitions", "HED": entries}
+        layouts = [{"defs": defs}, {"defs": defs, "cat": cat}, {"cat": cat, "val": val, "defs": defs}, {"val": val, "defs": defs, "cat": cat}]
+        meta = {"counts": list(vec)}
+        for li, doc in enumerate(layouts):
+            if quick and (li + vi) % 2:
+                continue
+            valid.append((copy.deepcopy(doc), dict(meta, layout=li)))
+        # one more entry without any definition: first / middle / last
+        for pi, pos in enumerate(sorted({0, len(vec) // 2 + (len(vec) > 1), len(vec)})):
+            for ni, non in enumerate(NON_DEFINITION_ENTRIES):
+                if quick and (vi + pi + ni) % 3:
+                    continue
+                text = non % used[0][0] if "%s" in non else non
+                items = list(entries.items())
+                items.insert(pos, ("plain", text))
+                d2 = dict(defs, HED=dict(items))
+                doc = {"defs": d2, "cat": cat} if (vi + ni) % 2 else {"cat": cat, "defs": d2}
+                mixed.append((doc, dict(meta, entry_without_definition=text, position=pos)))
+    return valid, mixed
+
+
+def check_def_mixed(doc):
+    stage, payload = run_doc(json.dumps(doc))
+    if stage != "ok":
+        return [(L_TOTAL, False, f"{stage}: {payload}", "a list of issues, nothing raised")]
+    errs = error_issues(payload)
+    got = [(i["code"], i.get("ec_sidecarColumnName"), i.get("ec_sidecarKeyName")) for i in errs]
+    hit = [i for i in errs if i["code"] == "DEFINITION_INVALID"]
+    res = [(L_TOTAL, True, None, None), (L_DEF_MIXED, bool(hit), got, "an error with code DEFINITION_INVALID")]
+    where = [i.get("ec_sidecarColumnName") for i in errs]
+    res.append((L_F_LOC, all(c is None or c == "defs" for c in where), where, {"column in": ["defs"]}))
+    return res
+
+
+# ------------------------------------------------------------------------------------------------ empty categorical maps
+def empty_map_docs(quick):
+    """-> [(doc, meta)]; meta['involved'] = the empty-map columns and the columns referring to them"""
+    empties = [{"HED": {}}, {"HED": {}, "Levels": {"a": "b"}}, {"Description": "nothing yet", "HED": {}}, {"Levels": {}, "HED": {}}]
+    out = []
+    for ei, e in enumerate(empties):
+        out.append(({"c": copy.deepcopy(e)}, {"involved": ["c"]}))
+        out.append(({"c": copy.deepcopy(e), "d": copy.deepcopy(empties[(ei + 1) % len(empties)])}, {"involved": ["c", "d"]}))
+    k = 0
+    for base in bases(True):
+        if len(base) > 2:
+            continue
+        for pos in range(len(base) + 1):
+            k += 1
+            if quick and k % 2:
+                continue
+            names = list(base)
+            names.insert(pos, "c")
+            doc = {n: (copy.deepcopy(empties[k % len(empties)]) if n == "c" else copy.deepcopy(COLUMNS[n])) for n in names}
+            if "c" in referenced(doc):
+                continue
+            out.append((doc, {"involved": ["c"]}))
+    hosts = [{"HED": {"a": "Green, {c}"}}, {"HED": "Label/#, ({c})"}, {"HED": {"a": "Red", "b": "({c}, Blue)"}}]
+    for hi, h in enumerate(hosts):
+        for ei, e in enumerate(empties):
+            if quick and (hi + ei) % 2:
+                continue
+            out.append(({"c": copy.deepcopy(e), "host": copy.deepcopy(h)}, {"involved": ["c", "host"]}))
+            out.append(({"host": copy.deepcopy(h), "cat1": copy.deepcopy(COLUMNS["cat1"]), "c": copy.deepcopy(e)},
+                        {"involved": ["c", "host"]}))
+    return out
+
+
+def check_empty_map(doc, involved):
+    stage, payload = run_doc(json.dumps(doc))
+    if stage != "ok":
+        return [(L_TOTAL, False, f"{stage}: {payload}", "a list of issues, nothing raised")]
+    errs = error_issues(payload)
+    got = [(i["code"], i.get("ec_sidecarColumnName"), i.get("ec_sidecarKeyName")) for i in errs]
+    allowed = TYPE_CODES | ({"SIDECAR_BRACES_INVALID"} if "host" in involved else set())
+    bad = [g for g in got if g[0] not in allowed or (g[1] is not None and g[1] not in involved)]
+    return [(L_TOTAL, True, None, None),
+            (L_EMPTYMAP, not bad, got, {"errors only with code in": sorted(allowed), "at column in": involved})]
+
+
 # ------------------------------------------------------------------------------------------------ jobs
 def _job(job):
     _env()
@@ -510,10 +693,17 @@ def _job(job):
         elif item[0] in ("defvalid", "deffault"):
             res = check_def_valid(item[1]) if item[0] == "defvalid" else check_def_fault(item[1])
             inp = dict({"mode": item[0], "doc": item[1]}, **item[2])
+        elif item[0] == "defmixed":
+            res = check_def_mixed(item[1])
+            inp = dict({"mode": item[0], "doc": item[1]}, **item[2])
+        elif item[0] == "emptymap":
+            res = check_empty_map(item[1], item[2]["involved"])
+            inp = dict({"mode": item[0], "doc": item[1]}, **item[2])
         else:
-            _, clause, desc, doc, involved = item
-            res = check_fault(clause, doc, involved)
-            inp = {"mode": "fault", "rule": clause, "fault": desc, "doc": doc, "involved": involved}
+            _, clause, desc, doc, involved = item[:5]
+            codes = item[5] if len(item) > 5 else None
+            res = check_fault(clause, doc, involved, codes)
+            inp = {"mode": "fault", "rule": clause, "fault": desc, "doc": doc, "involved": involved, "codes": codes}
         out["n"] += 1
         if out["sample"] is None:
             out["sample"] = inp
@@ -546,7 +736,7 @@ def _absorb(w, results, counters, prefix, items):
             else:
                 w.fail(clause, inp, obs, exp)
     for k, item in enumerate(items):
-        w.case(key=(prefix, k), nontrivial=True, sample={"mode": item[0], "doc": item[-2] if item[0] == "fault" else item[1]})
+        w.case(key=(prefix, k), nontrivial=True, sample={"mode": item[0], "doc": item[3] if item[0] == "fault" else item[1]})
     return n
 
 
@@ -632,6 +822,26 @@ def run(w: Workload):
            f"another column, next to a second value column with Def/Name/#; quick: first variant + every second other); {len(xfaults)} "
            "faulty ones (second real placeholder after / before the group, no placeholder at all, '#' form in a categorical entry)",
            exhaustive=False)
+    titems = [("fault", cl, desc, doc, inv, codes) for cl, desc, doc, inv, codes in template_faults(w.quick)]
+    n = _absorb(w, _par(titems, 20), counters, "templates", titems)
+    w.part("value-templates", cases=n, bound=f"value column whose template is one of {BLANK_TEMPLATES + POUNDLESS_TEMPLATES} x 4 "
+           "surroundings (alone, 1-2 valid columns; the column at every position) x {not referenced, referenced by a categorical "
+           "column at the end / inside parentheses, by a value column next to its '#' / nested} x host before / after"
+           + (" (templates with tags: a third of the combinations)" if w.quick else ""), exhaustive=not w.quick)
+    cvalid, cmixed = def_count_docs(w.quick)
+    def_pool_preconditions()
+    citems = [("defvalid", d, m) for d, m in cvalid] + [("defmixed", d, m) for d, m in cmixed]
+    n = _absorb(w, _par(citems, 12), counters, "defcounts", citems)
+    w.part("definition-counts", cases=n, bound=f"{len(count_vectors())} count vectors (1-3 entries holding 1, 2 or 3 definitions each, out "
+           f"of {len(DEF_POOL)} plain and '/#' definitions, rotating) x 4 layouts (alone, used from a categorical column, and from a "
+           f"value column, definitions column first / middle / last){' (quick: every second)' if w.quick else ''}: {len(cvalid)} valid "
+           f"sidecars; {len(cmixed)} with one more entry holding no definition ({len(NON_DEFINITION_ENTRIES)} texts) first / middle / "
+           f"last{' (quick: a third)' if w.quick else ''}", exhaustive=not w.quick)
+    eitems = [("emptymap", d, m) for d, m in empty_map_docs(w.quick)]
+    n = _absorb(w, _par(eitems, 12), counters, "emptymap", eitems)
+    w.part("empty-maps", cases=n, bound="categorical column with an empty HED map (4 shapes: bare, with Levels, with Description, "
+           "with empty Levels) alone, twice, at every position of every 1-2 column layout of valid columns"
+           + (" (quick: every second)" if w.quick else "") + ", referenced by a categorical / value column", exhaustive=not w.quick)
     w.bounded[-1]["checks_per_clause"] = counters
     w.exhaustive = False
     w.not_covered += ["documents deeper than 3 levels or with more than 2 members per container; more than 2 columns in part 'total'",
@@ -640,6 +850,9 @@ def run(w: Workload):
                       "definition's placeholder carries a unit ('Speed/# mph': observed VALUE_INVALID/UNITS_INVALID/DEF_INVALID on "
                       "'Def/Name/#', not judged - HedString.validate does not call the string individually valid either)",
                       "the rule 'HED key nested inside an ignored column' (not in the statement)",
+                      "whether an empty categorical HED map is itself a fault (the statement does not say; only that nothing is raised and "
+                      "no other column is blamed); a VALUE column whose template consists of definitions only (observed: accepted without "
+                      "'#', the placeholder count is skipped for definition columns); definitions mixed with other tags inside ONE entry",
                       "sidecars given as several merged files; validate(extra_def_dicts=...)",
                       "location fields are only checked not to name a column outside the fault (the statement asks for the code)"]
     w.assumptions += ["json.dumps/json.load round-trip the generated documents",
@@ -657,12 +870,16 @@ def replay(w: Workload, case: dict):
         res = check_def_valid(inp["doc"])
     elif inp["mode"] == "deffault":
         res = check_def_fault(inp["doc"])
+    elif inp["mode"] == "defmixed":
+        res = check_def_mixed(inp["doc"])
+    elif inp["mode"] == "emptymap":
+        res = check_empty_map(inp["doc"], inp["involved"])
     elif inp["mode"] == "total":
         res = check_total(inp["doc"])
     elif inp["mode"] == "valid":
         res = check_valid(inp["doc"])
     else:
-        res = check_fault(inp["rule"], inp["doc"], inp["involved"])
+        res = check_fault(inp["rule"], inp["doc"], inp["involved"], inp.get("codes"))
     for cl, ok, obs, exp in res:
         if cl == clause and not ok:
             w.fail(cl, inp, obs, exp)
